@@ -951,8 +951,11 @@ class FileStorage(
         with self._lock:
             pos = self._lookup_pos(oid)
             h = self._read_data_header(pos, oid)
-            if h.plen == 0 and h.back == 0:
-                # Undone creation
+            if h.plen == 0 and (
+                    h.back == 0 or
+                    self._loadBack_impl(oid, h.back, False)[0] is None):
+                # Undone creation (possibly at the end of a chain of
+                # backpointers: load() raises for it, too)
                 raise POSKeyError(oid)
             return h.tid
 
